@@ -303,7 +303,7 @@ func cmdCheck(args []string) int {
 				continue
 			}
 			confirmed, note := false, ""
-			if o.Result == "sat" {
+			if o.Result == "sat" || o.Result == "unknown" || o.Result == "timeout" {
 				confirmed, note = tryReplay(prog, vc, o, *verif)
 			}
 			switch {
